@@ -75,19 +75,10 @@ def run(ctx, report: Report) -> None:
     report.trusted_base = ['ast', 'HTML Standard definitions transcribed in sa/selsyn_html.py']
     pmod = src.mod('css_parser')
     mmod = src.mod('css_match')
-    consts = {}
-    flags = {}
-    for st in pmod.tree.body:
-        if isinstance(st, ast.Assign) and isinstance(st.targets[0], ast.Name) and st.targets[0].id.startswith('CSS_'):
-            for c in ast.walk(st.value):
-                if isinstance(c, ast.Call) and src.resolve_class_ref(pmod, c.func) == 'css_parser.CSSParser' and c.args:
-                    v = inv.folder.try_ev('css_parser', c.args[0], default=None)
-                    if isinstance(v, str):
-                        consts[st.targets[0].id] = strip_css(v)
-                if isinstance(c, ast.Call) and call_name(c).endswith('process_selectors'):
-                    for k in c.keywords:
-                        if k.arg == 'flags':
-                            flags[st.targets[0].id] = inv.folder.try_ev('css_parser', k.value, default=0)
+    from .sem import selector_constants
+    sc = selector_constants(ctx)
+    consts = {k: strip_css(v['text']) for k, v in sc.items() if k.startswith('CSS_')}
+    flags = {k: v['flags'] for k, v in sc.items() if k.startswith('CSS_') and isinstance(v['flags'], int)}
     need = ['CSS_LINK', 'CSS_CHECKED', 'CSS_DEFAULT', 'CSS_INDETERMINATE', 'CSS_DISABLED', 'CSS_ENABLED', 'CSS_REQUIRED',
             'CSS_OPTIONAL', 'CSS_READ_WRITE', 'CSS_READ_ONLY', 'CSS_IN_RANGE', 'CSS_OUT_OF_RANGE', 'CSS_PLACEHOLDER_SHOWN']
     for n in need:
@@ -97,7 +88,7 @@ def run(ctx, report: Report) -> None:
                                                  'FLG_OUT_OF_RANGE', 'FLG_PLACEHOLDER_SHOWN', 'FLG_PSEUDO')}
 
     # ---- R1 ----------------------------------------------------------------------------------------------
-    r1 = report.rule('C17-R1', 'partition laws by construction of the definitions', floor=11)
+    r1 = report.rule('C17-R1', 'partition laws by construction of the definitions', floor=5)
 
     def law(key, ok, detail, msg):
         r1.instance({'law': key, **detail, 'holds': ok}, key=key)
@@ -169,7 +160,7 @@ def run(ctx, report: Report) -> None:
         law(f'{n}-html-only', ok, {}, f'{n} is not compiled with FLG_HTML: an HTML state pseudo-class would match in plain XML')
 
     # ---- R2 ----------------------------------------------------------------------------------------------
-    r2 = report.rule('C17-R2', 'document-context walks respect the iframe boundary', floor=125)
+    r2 = report.rule('C17-R2', 'document-context walks respect the iframe boundary', floor=62)
     const_true = {'match_default', 'match_indeterminate', 'match_indeterminate.get_parent_form', 'match_dir'}
     by_flag = {'match_lang': 'self.is_html', 'match_contains': 'self.is_html', 'match_past_relations': 'self.iframe_restrict',
                'match_future_child': 'self.iframe_restrict'}
@@ -237,7 +228,7 @@ def run(ctx, report: Report) -> None:
         r2.violation('css_match.CSSMatch.find_bidi iframe', mmod.where(fb), 'find_bidi no longer skips iframe elements')
 
     # ---- R3 ----------------------------------------------------------------------------------------------
-    r3 = report.rule('C17-R3', 'memo tables are identity-keyed lists', floor=5)
+    r3 = report.rule('C17-R3', 'memo tables are identity-keyed lists', floor=2)
     _, init = src.func('css_match.CSSMatch.__init__')
     for st in walk_no_nested(init):
         if isinstance(st, ast.Assign) and unparse(st.targets[0]).startswith('self.cached_'):
@@ -265,7 +256,7 @@ def run(ctx, report: Report) -> None:
                          f'{short} does not look its form up in {cache} by an identity (`is`) scan')
 
     # ---- R4 ----------------------------------------------------------------------------------------------
-    r4 = report.rule('C17-R4', 'in-range / out-of-range cover exactly the inputs with a valid bound', floor=448)
+    r4 = report.rule('C17-R4', 'in-range / out-of-range cover exactly the inputs with a valid bound', floor=224)
     from .c18 import range_table
     _, mr = src.func('css_match.CSSMatch.match_range')
     itype_var = None
@@ -287,7 +278,7 @@ def run(ctx, report: Report) -> None:
 
     # ---- R6 ----------------------------------------------------------------------------------------------
     r6 = report.rule('C17-R6', 'directionality and placeholder content follow the HTML Standard (decision tables of the matcher functions)',
-                     floor=100)
+                     floor=159)
     from .sem import dir_table
     dir_table(ctx, r6)
     from ..interp import Obj, Raised, call_function
